@@ -290,7 +290,8 @@ def tsat(p, bounds = False):
         def f(t):
             # fsolve passes in an array, but sat() needs a scalar:
             if isinstance(t, Iterable): t = float(t[0])
-            return sat(t) - p
+            # (keep within range of sat() while iterating:)
+            return sat(min(max(t, 0.01), 500.)) - p
         from math import log
         t0 = max(4606.0 / (24.02 - log(p)) - 273.15, 5.0) # starting estimate
         t = fsolve(f, t0)
